@@ -61,6 +61,12 @@ func main() {
 		UploadURL:     os.Getenv("VERIF_C16_URL"),
 		TelemetryDir:  os.Getenv("VERIF_C16_TDIR"),
 	}
+	if os.Getenv("VERIF_C16_RMEXE") == "1" && lineage == "" {
+		// the executable disappears (an upgrade in progress): the sidecar cannot be exec'ed
+		if exe, err := os.Executable(); err == nil {
+			os.Remove(exe)
+		}
+	}
 	if os.Getenv("VERIF_C16_ENTRY") == "maybe" {
 		// the documented alternative for programs that cannot call Start first
 		telemetry.MaybeChild(cfg)
